@@ -135,7 +135,7 @@ def run(name, checks):
             viol = [l for l in out.splitlines() if l.startswith("VIOLATION")]
             clauses = sorted(set(l.strip() for l in out.splitlines() if l.strip().startswith("clause:")))
             inc = [l for l in out.splitlines() if l.startswith("INCONCLUSIVE")]
-            verdict = "caught" if rc == 1 and viol else ("inconclusive" if rc == 2 else "missed")
+            verdict = "caught" if rc == 1 and viol else ("inconclusive" if rc == 2 else ("missed" if rc == 0 else "error"))
             meta["checks"][c] = {"verdict": verdict, "rc": rc, "violations": len(viol), "clauses": clauses[:4], "inconclusive": inc[:2],
                                  "tier": os.environ.get("SEEDED_TIER", "quick"), "wall_s": round(time.time() - t0, 1)}
             print(name, c, verdict, "violations=%d" % len(viol), clauses[:2], inc[:1])
